@@ -1048,3 +1048,113 @@ Definition ok_module (gm : list (list (Z * Z * str))) (tl : list (Z * list (Z * 
           end
       end
   end.
+
+(* ------------------------------------------------------------------ the symbol table of an ELF file *)
+(* utils/symbol.c load_symtab (load_symbol, sort_symtab), load_dynsymtab (PLT part above +
+   arch/x86_64 arch_load_dynsymtab_noplt), merge_symtabs, update_symtab_using_dynsym: the table
+   load_module_symtab builds when there is no .sym file - what record writes into <module>.sym. *)
+Record esym := mkESym { e_value : Z; e_size : Z; e_type : Z; e_bind : Z; e_shndx : Z; e_name : str }.
+Definition STT_OBJECT : Z := 1.
+Definition STT_FUNC : Z := 2.
+Definition STT_GNU_IFUNC : Z := 10.
+
+Definition esym_typed (e : esym) : bool :=
+  (e_type e =? STT_FUNC) || (e_type e =? STT_GNU_IFUNC) || (e_type e =? STT_OBJECT).
+Definition loadable (e : esym) : bool :=
+  negb (e_shndx e =? 0) && negb (e_size e =? 0) && esym_typed e.
+
+(* enum uftrace_symtype from binding and type *)
+Definition symtype_of (e : esym) : Z :=
+  let obj := e_type e =? STT_OBJECT in
+  if e_bind e =? 0 then (if obj then 100 else 116)            (* STB_LOCAL: 'd' / 't' *)
+  else if e_bind e =? 1 then (if obj then 68 else 84)          (* STB_GLOBAL: 'D' / 'T' *)
+  else if e_bind e =? 2 then (if obj then 118 else 119)        (* STB_WEAK: 'v' / 'w' *)
+  else if (e_bind e =? 10) && obj then 117                     (* STB_GNU_UNIQUE object: 'u' *)
+  else 63.                                                     (* '?' *)
+
+(* load_symbol over the symbols in file order; prev = st_value of the last symbol that was loaded *)
+Fixpoint load_symbols (offset prev : Z) (l : list esym) : symtab :=
+  match l with
+  | [] => []
+  | e :: r =>
+      if loadable e && negb (prev =? e_value e)
+      then mkSym ((e_value e + offset) mod W64) (e_size e mod W32) (symtype_of e) (e_name e)
+           :: load_symbols offset (e_value e) r
+      else load_symbols offset prev r
+  end.
+
+(* sort_symtab: symbols of one address become one entry - the data of the last one, the name
+   preferring one that does not start with '_' (unless mangled "_Z") *)
+Definition better_name (best nm : str) : str :=
+  if (nth 0 best 0 =? 95) && negb (nth 1 best 0 =? 90) && negb (nth 0 nm 0 =? 95) then nm else best.
+Definition finish_run (best : str) (last : sym) : sym := mkSym (s_addr last) (s_size last) (s_type last) best.
+Fixpoint dedup_go (cur : Z) (best : str) (last : sym) (l : symtab) : symtab :=
+  match l with
+  | [] => [finish_run best last]
+  | y :: r => if s_addr y =? cur then dedup_go cur (better_name best (s_name y)) y r
+              else finish_run best last :: dedup_go (s_addr y) (s_name y) y r
+  end.
+Definition dedup_syms (l : symtab) : symtab :=
+  match l with [] => [] | x :: r => dedup_go (s_addr x) (s_name x) x r end.
+
+Definition elf_offset (adj : bool) (offset0 vaddr0 : Z) : Z := if adj then (offset0 - vaddr0) mod W64 else offset0.
+
+Definition load_symtab (adj : bool) (offset0 vaddr0 : Z) (syms : list esym) : symtab :=
+  dedup_syms (sort_syms (load_symbols (elf_offset adj offset0 vaddr0) (-1) syms)).
+
+(* merge_symtabs: the table whose first address is smaller goes first, then qsort by address *)
+Definition merge_symtabs (left right : symtab) : symtab :=
+  match left, right with
+  | _, [] => left
+  | [], _ => right
+  | l0 :: _, r0 :: _ => sort_syms (if s_addr l0 <? s_addr r0 then left ++ right else right ++ left)
+  end.
+
+(* arch_load_dynsymtab_noplt: one pseudo symbol per R_X86_64_GLOB_DAT relocation of an undefined
+   function: (index of the relocation in .rela.dyn, name) *)
+Definition noplt_syms (offset reladyn : Z) (gd : list (Z * str)) : symtab :=
+  sort_syms (map (fun p => mkSym ((reladyn + offset) mod W64 + fst p * 24) 24 K_ST_PLT_FUNC (snd p)) gd).
+
+(* update_symtab_using_dynsym: a defined dynamic symbol renames the entry that holds its address *)
+Fixpoint set_name (tab : symtab) (i : nat) (nm : str) : symtab :=
+  match tab, i with
+  | [], _ => []
+  | s :: r, O => mkSym (s_addr s) (s_size s) (s_type s) nm :: r
+  | s :: r, S k => s :: set_name r k nm
+  end.
+Definition update_one (offset : Z) (tab : symtab) (e : esym) : symtab :=
+  if (e_shndx e =? 0) || negb (esym_typed e) then tab
+  else match bsearch (cmp_addr ((e_value e + offset) mod W64)) tab with
+       | None => tab
+       | Some i =>
+           match nth_error tab i with
+           | None => tab
+           | Some s =>
+               if (negb (nth 0 (s_name s) 0 =? 95) && (nth 0 (e_name e) 0 =? 95)) || (nth 1 (s_name s) 0 =? 90)
+               then tab else set_name tab i (e_name e)
+           end
+       end.
+
+Record elffile := mkElf {
+  ef_vaddr0 : Z; ef_symtab : list esym; ef_dynsym : list esym; ef_plt : elfplt;
+  ef_reladyn : Z; ef_globdat : list (Z * str)
+}.
+(* load_module_symbol without a symbol file, SYMTAB_FL_ADJ_OFFSET, caller's offset 0 *)
+Definition module_table (f : elffile) : symtab :=
+  let offset := elf_offset true 0 (ef_vaddr0 f) in
+  let st := load_symtab true 0 (ef_vaddr0 f) (ef_symtab f) in
+  let dyn := merge_symtabs (load_elf_dynsymtab true 0 (ef_plt f)) (noplt_syms offset (ef_reladyn f) (ef_globdat f)) in
+  fold_left (update_one offset) (ef_dynsym f) (merge_symtabs st dyn).
+
+Fixpoint strictly_sorted (tab : symtab) : bool :=
+  match tab with
+  | a :: ((b :: _) as r) => (s_addr a <? s_addr b) && strictly_sorted r
+  | _ => true
+  end.
+
+(* run-time checker for a module table built by the implementation: every loadable symbol of the
+   file is represented at (st_value - first PT_LOAD address), no address occurs twice among the
+   non-PLT entries *)
+Definition ok_module_table (f : elffile) (tab : symtab) : bool :=
+  forallb (fun e => if loadable e then existsb (fun s => s_addr s =? e_value e - ef_vaddr0 f) tab else true) (ef_symtab f)
+  && strictly_sorted (filter (fun s => negb (s_type s =? K_ST_PLT_FUNC)) tab).
